@@ -103,6 +103,7 @@ type parseOut struct {
 	initial []string
 	result  []string
 	vars    []string
+	lexical bool // rejected by the lexical analysis (unknown symbol, constant out of range): no complete token list
 }
 
 func runParser(expr string) parseOut {
@@ -111,6 +112,7 @@ func runParser(expr string) parseOut {
 		p := parsers.NewExpressionParser()
 		err := p.ParseString(expr)
 		o.code = errCode(err)
+		o.lexical = o.code == "UNKNOWN_SYMBOL" || (err != nil && strings.Contains(err.Error(), "is out of range"))
 		for _, t := range p.InitialTokens() {
 			o.initial = append(o.initial, encETok(t))
 		}
@@ -327,7 +329,15 @@ func runParseCase(c *Ctx, expr string, label string) parseOut {
 	if c.Prop == "C02" {
 		reuseParse(c, expr, o)
 	}
-	if o.code == "UNKNOWN_SYMBOL" {
+	// text level: the model's trim + tokenizer + lexical analysis must produce the same initial tokens
+	if o.lexical {
+		c.model("lex "+strRunes(expr), "err "+o.code, "model")
+	} else if len(o.initial) == 0 {
+		c.model("lex "+strRunes(expr), "ok -", "model")
+	} else {
+		c.model("lex "+strRunes(expr), "ok "+strings.Join(o.initial, " "), "model")
+	}
+	if o.lexical {
 		c.count("lexical-reject")
 		return o // rejected before syntax analysis; nothing to compare at token level
 	}
